@@ -1,7 +1,7 @@
 SPECIFICATION Spec
 CONSTANTS
   K = 1
-  Variant = "keephost"
+  Variant = {"keephost"}
   Emit = FALSE
 INVARIANTS ImplValid ImplHeaders ImplReqOk
 CHECK_DEADLOCK FALSE
